@@ -39,6 +39,9 @@ fn main() {
                         Outcome::Err(e) => {
                             let ent = err.entry(r.op).or_insert((0, e.clone()));
                             ent.0 += 1;
+                            if std::env::var("OPSTAT_SHOW").ok().as_deref() == Some(r.op) {
+                                println!("ERR in {}: {e}; node {}; inputs {:?}; nodes {}; values {:?}", r.op, node_def_json(&built, r.node.name()), r.inputs.iter().map(vc_ops::cmp::show_opt).collect::<Vec<_>>(), serde_json::to_string(&built.model.graph.nodes).unwrap(), built.values.iter().map(|v| format!("{}:{:?}{:?}", v.name, v.dtype, v.shape)).collect::<Vec<_>>());
+                            }
                         }
                         Outcome::Panic(p) => {
                             let ent = err.entry(r.op).or_insert((0, format!("PANIC {} at {}", p.msg, p.loc())));
